@@ -1090,6 +1090,17 @@ fn c02_c03_match(tc: &TransCtx, sink: &mut Sink) {
                         if !r.fee_pairs.iter().any(|p| p.0 == to(acct)) {
                             sink.v("C09", "C09/match/fill-fee-not-pro-rata".into(), format!("paid {}, acceptable (paid, refunded) pairs {:?}; bid {bid:?}", to(acct), r.fee_pairs));
                         }
+                        // C02: "the bid's pro-rated fee" is a share of the fee that was escrowed, whatever the
+                        // record says is still held: nearest(fee x unspent / quote) - nearest(fee x (unspent - spent) / quote)
+                        if let (Some((_, f)), Some(rq)) = (&bid.fee, bid.rem_quote()) {
+                            if let (Some(h0s), Some(h1s)) = (pro_rata_nearest(*f, rq, bid.quote), rq.checked_sub(r.gross).and_then(|left| pro_rata_nearest(*f, left, bid.quote))) {
+                                let paid = to(acct);
+                                let ok = h0s.iter().any(|h0| h1s.iter().any(|h1| h0 >= h1 && h0 - h1 == paid));
+                                if !ok {
+                                    sink.v("C02", "C02/bid-fee-not-the-pro-rated-share-of-the-escrowed-fee".into(), format!("paid {paid}; escrowed fee {f}, unspent quote {rq} of {}, spent {}; bid {bid:?}", bid.quote, r.gross));
+                                }
+                            }
+                        }
                     }
                 }
                 // (only where the quote denomination is not also one of the ask's denominations)
